@@ -79,7 +79,7 @@ PROFILES = {
     "lossy": dict(deliver=14, timer=4, send=3, ret=3, create=2, remove=0.5, lose=3, dup=2),
     "tamper": dict(deliver=14, timer=2, send=5, ret=4, create=2, tamper=4, header=2, splice=2, inject=2, plain=1),
     "isolation": dict(deliver=14, timer=2, send=5, ret=4, create=3, remove=0.5, inject=2, advcreate=3, destroy=3,
-                      splice=2, plain=1, dup=1),
+                      splice=2, plain=1, dup=1, mangle=1.5),
     "handshake": dict(deliver=10, timer=2, create=3, mangle=5, dup=2, lose=1, send=1),
     "reclaim": dict(deliver=10, timer=8, send=2, ret=1, create=1.5, remove=1, lose=4, dup=1, vanish=0.3, nodedown=0.7),
 }
